@@ -26,6 +26,7 @@ import io
 import itertools
 import random
 import tempfile
+import zlib
 from dataclasses import dataclass, field
 from pathlib import Path
 from typing import Any, Callable, Dict, List, Optional, Sequence, Tuple
@@ -218,7 +219,7 @@ def default_domain(c: MacroContract, rng: random.Random, tier: str) -> List[Dict
 
 def check_contract(rep: Report, c: MacroContract, tier: str, seed: int, prop: str) -> Tuple[int, int]:
     """returns (executions, distinct operand tuples)"""
-    rng = random.Random(hash((c.name, c.call, seed)) & 0xFFFFFFFF)
+    rng = random.Random(zlib.crc32(f'{c.name}|{c.call}|{seed}'.encode()))  # (not hash(): salted per process)
     evals = 0
     distinct = set()
     for w in c.widths if tier == 'thorough' else c.widths[:1]:
